@@ -46,9 +46,15 @@ type c03Op struct {
 
 func (p *c03) Bounds(tier string) map[string]interface{} {
 	B, d := c03Bounds(tier)
-	return map[string]interface{}{"B(|S|+|T|)": B, "bfs_depth": d, "schemas": []string{"base", "keys"}, "stores": append(append(append([]string{}, store.Impls...), "reflect-slice", "node-slice"), store.StructImpls...),
+	return map[string]interface{}{"B(|S|+|T|)": B, "bfs_depth": d, "schemas": []string{"base", "keys"}, "stores": c03Stores(),
 		"sources": []string{"ref", "json", "xml"}, "strategies": []string{"upsert", "insert", "update"}, "directions": []string{"from", "into"},
 		"value alphabet": "2 values per leaf, 3 keys per list (4 tuples for compound keys), <=2 entries per list"}
+}
+
+func c03Stores() []string {
+	out := append(append([]string{}, store.Impls...), "reflect-slice", "node-slice")
+	out = append(out, store.StructImpls...)
+	return append(out, store.StructValImpls...)
 }
 
 func c03Bounds(tier string) (int, int) {
@@ -66,7 +72,7 @@ var c03Entries = map[string][]string{
 func (p *c03) Cases(tier string, emit func(interface{})) {
 	B, depth := c03Bounds(tier)
 	for _, schema := range []string{"base", "keys"} {
-		for _, st := range append(append(append([]string{}, store.Impls...), "reflect-slice", "node-slice"), store.StructImpls...) {
+		for _, st := range c03Stores() {
 			for _, strat := range []string{"upsert", "insert", "update"} {
 				for _, entry := range c03Entries[schema] {
 					emit(c03Case{Part: "pairs", Schema: schema, Store: st, Source: "ref", Strat: strat, Dir: "from", Entry: entry, B: B})
@@ -78,6 +84,15 @@ func (p *c03) Cases(tier string, emit func(interface{})) {
 				}
 			}
 			emit(c03Case{Part: "bfs", Schema: schema, Store: st, Source: "ref", Depth: depth})
+			if schema == "base" {
+				for _, strat := range []string{"upsert", "insert", "update"} {
+					for _, entry := range []string{"", "l"} {
+						for _, src := range []string{"ref", "json"} {
+							emit(c03Case{Part: "lists", Schema: schema, Store: st, Source: src, Strat: strat, Dir: "from", Entry: entry})
+						}
+					}
+				}
+			}
 		}
 	}
 }
@@ -276,6 +291,8 @@ func (p *c03) Run(raw json.RawMessage) eng.Result {
 		return c03RunPairs(c)
 	case "pair":
 		return c03RunPair(c)
+	case "lists":
+		return c03RunLists(c)
 	case "bfs":
 		return c03RunBFS(c)
 	case "history":
@@ -404,6 +421,97 @@ func c03RunPairs(c c03Case) eng.Result {
 				if ss.seen == nil {
 					ss.seen = map[string]bool{}
 				}
+				ss.seen[sig] = true
+				res.AddCase(sig, what, rc)
+			}
+		}
+	}
+	for k := range ocs {
+		res.Outcomes = append(res.Outcomes, k)
+	}
+	if res.Evals == 0 {
+		res.Evals = 1
+	}
+	return res
+}
+
+// c03ListDocs: documents holding list l with the given numbers of entries; keys are distinct members of
+// {a,b,c} in every order, each entry takes every combination of the per-entry variants.
+func c03ListDocs(counts []int, variants []string) []string {
+	keys := []string{"a", "b", "c"}
+	var out []string
+	var rec func(n int, used []string, acc []string)
+	rec = func(n int, used []string, acc []string) {
+		if n == 0 {
+			out = append(out, `{"l":[`+strings.Join(acc, ",")+`]}`)
+			return
+		}
+		for _, k := range keys {
+			dup := false
+			for _, u := range used {
+				dup = dup || u == k
+			}
+			if dup {
+				continue
+			}
+			for _, v := range variants {
+				rec(n-1, append(append([]string{}, used...), k), append(append([]string{}, acc...), `{"k":"`+k+`"`+v+`}`))
+			}
+		}
+	}
+	for _, n := range counts {
+		if n == 0 {
+			out = append(out, `{}`)
+			continue
+		}
+		rec(n, nil, nil)
+	}
+	return out
+}
+
+// c03RunLists: list-shaped pairs beyond the size bound of part pairs: S lists 1..2 entries in every
+// order (new before existing, existing before new), T holds 0..2 entries with further leaves set.
+func c03RunLists(c c03Case) eng.Result {
+	var res eng.Result
+	ss := &sigSet{res: &res, seen: map[string]bool{}}
+	m := model.SharedSchema(c.Schema)
+	ep := entryPoint{c.Entry}
+	ocs := map[string]bool{}
+	parse := func(doc string) *model.Tree {
+		t, err := model.FromJSON(m.DataDefinitions(), []byte(doc))
+		if err != nil {
+			panic(err)
+		}
+		return t
+	}
+	var srcs, ts []*model.Tree
+	for _, d := range c03ListDocs([]int{1, 2}, []string{``, `,"v":2`}) {
+		srcs = append(srcs, parse(d))
+	}
+	for _, d := range c03ListDocs([]int{0, 1, 2}, []string{`,"v":1`, `,"v":1,"w":"x"`}) {
+		ts = append(ts, parse(d))
+	}
+	for _, t := range ts {
+		if tt, tl := ep.locate(m, t); tt == nil && tl == nil {
+			continue
+		}
+		for _, s := range srcs {
+			sig, what, oc, ran := c03CheckPair(c, s, t)
+			if !ran {
+				continue
+			}
+			res.Evals++
+			res.States++
+			res.Transitions++
+			res.Nontriv++
+			if oc != "" {
+				ocs[c.Strat+":"+oc] = true
+			}
+			if sig != "" && !ss.seen[sig] {
+				sj, _ := json.Marshal(treeJSON(m, ep, s, true))
+				tj, _ := json.Marshal(treeJSON(m, entryPoint{}, t, false))
+				rc := c
+				rc.Part, rc.S, rc.T = "pair", sj, tj
 				ss.seen[sig] = true
 				res.AddCase(sig, what, rc)
 			}
